@@ -26,6 +26,7 @@ RULES = {
     "C09.R3b": lambda ctx: bldrules.contents_predicates(ctx, "C09.R3b"),
     "C09.R5": lambda ctx: bldrules.strip_prefixes(ctx, "C09.R5"),
     "C09.R6": lambda ctx: bldrules.hermes_permutation(ctx, "C09.R6"),
+    "C09.R0": lambda ctx: __import__("rules.foundations", fromlist=["x"]).accessors(ctx, "C09.R0", None),
     "C09.R7": r7,
 }
 
